@@ -472,4 +472,50 @@ Theorem C17_zsh_script_untamed_name_refuted :
     skeleton (events sh_step ZB s1) <> skeleton (events sh_step ZB s2).
 Proof. exact zsh_untamed_name_refuted. Qed.
 Print Assumptions C17_zsh_script_untamed_name_refuted.
+(** Level 2: the [_arguments] specs and [_describe] items.  [spec_line c d g line]: [line] is one of the quoted spec
+    lines the model writes for the command [c] (an option spec per spelling, a flag spec per spelling, a positional
+    spec, a ['name:about'] item per subcommand name or visible alias); the C16 theorems [C16_zsh_block_options],
+    [C16_zsh_block_flags], [C16_zsh_block_positionals], [C16_zsh_describe_entries], [C16_zsh_path_block] place these lines
+    in the file.  [payload line st]: what zsh's word lexer hands on after quote removal.  [zrun2] threads the word
+    lexer AND the spec lexer of [ShellLex.v] through the pieces. *)
+
+(** generic: when both lexers run through a word list (every escape_help slot inside quotes and in the description or
+    a field of the spec, every positional help inside quotes in a field), the level-2 events of its payload are those
+    of the fixed text plus, per slot, the text itself as literal payload (newlines flattened by escape_help) *)
+Theorem C17_zsh_level2_events : forall l s1 s2 st, zrun2 s1 s2 l = Some st ->
+  events zspec_step s2 (payload l s1) = zpev2 s1 s2 l /\ final zspec_step s2 (payload l s1) = snd st.
+Proof. exact zrun2_events. Qed.
+Print Assumptions C17_zsh_level2_events.
+
+(** every spec line of a tame command runs at both levels and ends on the continuation backslash *)
+Theorem C17_zsh_spec_lines_run : forall c d g line st,
+  ztame_cmd c = true -> spec_line c d g line -> zbare st = true ->
+  exists s2, zrun2 st ZsPre line = Some (ZBS, s2).
+Proof. exact zsh_spec_lines_run2. Qed.
+Print Assumptions C17_zsh_spec_lines_run.
+
+(** level-2 structure invariance per spec line: any line with the same fixed text has the same [_arguments]-level token
+    skeleton and final state -- brackets and colons in a help, about or tooltip text never become structure *)
+Theorem C17_zsh_spec_line_level2 : forall c d g line line' st,
+  ztame_cmd c = true -> spec_line c d g line -> zbare st = true -> map zperase line = map zperase line' ->
+  skeleton (events zspec_step ZsPre (payload line st)) = skeleton (events zspec_step ZsPre (payload line' st)) /\
+  final zspec_step ZsPre (payload line st) = final zspec_step ZsPre (payload line' st).
+Proof. exact zsh_spec_line_level2. Qed.
+Print Assumptions C17_zsh_spec_line_level2.
+
+(** the lines written for other texts of the same presence shape are such lines *)
+Theorem C17_zsh_spec_lines_fixed_text : forall c g a ad card about w,
+  opt_lines c g (a, erase_adesc ad) = map (map zperase) (opt_lines c g (a, ad)) /\
+  flag_lines c g (a, erase_adesc ad) = map (map zperase) (flag_lines c g (a, ad)) /\
+  positional_line card (a, erase_adesc ad) = map zperase (positional_line card (a, ad)) /\
+  describe_entry (erase_opt about) w = map zperase (describe_entry about w).
+Proof. exact spec_lines_fixed_text. Qed.
+Print Assumptions C17_zsh_spec_lines_fixed_text.
+
+(** level 3 stays a class boundary (recorded finding [C17-zsh-tooltip-dquote]): escape_help leaves a double quote as it
+    is, at both levels it is payload, and inside the eval'd double-quoted string it ends the string *)
+Theorem C17_zsh_tooltip_dquote_boundary :
+  zsh_escape_help [34%N] = [34%N] /\ zsh_l1 [34%N] = [34%N] /\ final sh_step ZDQ [34%N] = ZW.
+Proof. exact zsh_tooltip_dquote_boundary. Qed.
+Print Assumptions C17_zsh_tooltip_dquote_boundary.
 (* ---- end zsh generator model ---- *)
